@@ -955,17 +955,10 @@ impl<'a> Interp<'a> {
             Ev::DisconnectOf(serial) => {
                 if self.model.conns[serial].live {
                     self.close_model(serial, CloseWhy::LinkDrop);
-                } else if let Some(id) = self.sim.conns[serial].router_id {
-                    // a late signal of a finished connection. By the property it acts on nobody;
-                    // the router keys connections by recycled slab ids (known finding R5): for a
-                    // victim that is not asserted on the model follows the router
-                    if let Some(victim) = self.resolve_id(id) {
-                        let slot = self.model.conns[victim].slot;
-                        if !self.strict(slot) || self.model.conns[victim].tainted {
-                            self.close_model(victim, CloseWhy::Violation("recycled_id_signal"));
-                        }
-                    }
                 }
+                // otherwise: a late signal of a finished connection. By the property it acts on
+                // nobody, and since R5 was repaired in /repo (links address the router with a
+                // token that carries the serial number of their registration) it does not
             }
             Ev::DisconnectId(id) => {
                 // a disconnect signal carrying the id of a live connection is indistinguishable
